@@ -103,18 +103,22 @@ def build_trace(tid, cfg, res, initial, rngidx=None, eps=0, epsrec=0, rflags=Non
     nsteps = res["nsteps"]
     nrows_sup = len(steps[sup])
     noexec = {n: [] for n in names}
-    if res.get("override"):
+    if "noexec_ticks" in res:
+        noexec[sup] = sorted(set(res["noexec_ticks"]) | set(range(nsteps, nrows_sup)))
+    elif res.get("override"):
         noexec[sup] = list(range(0, nrows_sup))
     else:
         noexec[sup] = list(range(nsteps, nrows_sup))
+    cancelled = {n: [] for n in names}
+    cancelled[sup] = list(range(nsteps, nrows_sup))
     t = dict(id=str(tid), cfg=tla_cfg(cfg, eps=eps), epsrec=int(epsrec), steps=steps, msgs=msgs, log=log, obs=obs,
-             noexec=noexec, rflags=rflags, flags=dict(log=bool(check_log)))
+             noexec=noexec, cancelled=cancelled, rflags=rflags, flags=dict(log=bool(check_log)))
     if ref is not None:
         t["ref"] = ref
     return t
 
 
-def as_ref(trace, epsrec):
-    """Reference tables (steps, msgs) of an accepted trace, for the Deterministic clauses of later traces."""
-    steps = {n: [dict(r, eps=epsrec) for r in rows] for n, rows in trace["steps"].items()}
-    return dict(steps=steps, msgs=trace["msgs"])
+def as_ref(trace):
+    """Reference tables (steps, msgs) of a trace, for the Deterministic clauses of later traces of the same
+    configuration and initial state."""
+    return dict(steps=trace["steps"], msgs=trace["msgs"])
